@@ -90,5 +90,8 @@ var corpus = []string{
 	`local o = {k = 5}; function o:m(a, ...) emit(self == o, self.k, a, ...) return self.k + (a or 0) end; emit(o:m()); emit(o:m(1, 2)); emit(o.m(o, 7))`,
 	`local function noarg(...) emit(arg.n, arg[1], arg[2]) return arg.n end; emit(noarg()); emit(noarg(7, nil)); emit(noarg(nil, nil, nil))`,
 	`local function loop(n, acc) if n == 0 then return acc end return loop(n - 1, acc + n) end; emit(loop(100, 0))`,
+	// wave 5: a sequence popped by assignment then spread; an arg table modified by its owner, then later calls
+	`local t = {1, 2, 3}; t[#t] = nil; emit(select('#', unpack(t)), unpack(t)); local function r() return unpack(t) end; emit(r()); t[#t] = nil; t[#t] = nil; emit(select('#', unpack(t)), select('#', r())); emit(#{unpack(t)}, pcall(math.max, 0, unpack(t))); t[#t + 1] = 7; emit(unpack(t))`,
+	`local function d(...) emit(arg.n, arg[1]); arg[arg.n + 1] = "v"; arg.n = arg.n + 1; return arg.n end; local function q(...) return arg.n, arg[1] end; emit(d()); emit(q()); emit(d()); emit(pcall(q)); emit(d(5)); emit(q(6)); emit((function() return q() end)())`,
 	`local mt = {__call = function(self, a, b) emit("called", a, b) return b, a end}; local c = setmetatable({}, mt); emit(c(1, 2)); local function tc() return c(3, 4) end; emit(tc())`,
 }
